@@ -286,6 +286,57 @@ class Ctx:
         self.failures.append(rec)
 
 
+def merge_ctx(ctx, other):
+    """fold the results of a worker's context into the main one"""
+    for k, v in other.stats.items():
+        if k == 'rule':
+            continue
+        ctx.stats[k] = ctx.stats.get(k, 0) + v
+    for smp in other.samples:
+        if len(ctx.samples) < 3:
+            ctx.samples.append(smp)
+    ctx.evaluations += other.evaluations
+    ctx.distinct |= other.distinct
+    ctx.disagreements += other.disagreements
+    ctx.drift += other.drift
+    ctx.failures += other.failures
+    for k, v in other.known_hits.items():
+        ctx.known_hits.setdefault(k, v)
+    ctx.notes += other.notes
+    ctx.bitexact[0] += other.bitexact[0]
+    ctx.bitexact[1] += other.bitexact[1]
+
+
+def _pwork(args):
+    modname, fname, pid, tier, seed, idx, chunk = args
+    import importlib
+    os.environ['OMP_NUM_THREADS'] = '1'
+    mod = importlib.import_module(modname)
+    sub = Ctx(pid, tier, seed * 7919 + idx + 1)
+    getattr(mod, fname)(sub, chunk)
+    sub.rng = None
+    return sub
+
+
+def run_parallel(ctx, modname, fname, cases, nproc=None, chunk=None):
+    """run `modname.fname(sub_ctx, chunk_of_cases)` over all cases in worker processes and merge"""
+    import multiprocessing as mp
+    nproc = nproc or min(16, os.cpu_count() or 4)
+    if len(cases) < 64 or nproc == 1:
+        import importlib
+        getattr(importlib.import_module(modname), fname)(ctx, cases)
+        return
+    chunk = chunk or max(4, min(400, len(cases) // (nproc * 6) + 1))
+    order = list(range(len(cases)))
+    random.Random(ctx.seed).shuffle(order)          # balance expensive cases (catalogue look-ups) over workers
+    cases = [cases[i] for i in order]
+    chunks = [cases[i:i + chunk] for i in range(0, len(cases), chunk)]
+    with mp.Pool(nproc) as pool:
+        for sub in pool.imap_unordered(_pwork, [(modname, fname, ctx.pid, ctx.tier, ctx.seed, i, c)
+                                                for i, c in enumerate(chunks)]):
+            merge_ctx(ctx, sub)
+
+
 def _jsonable(o):
     try:
         import numpy as np
